@@ -7,8 +7,8 @@ use crate::{Case, Rng};
 pub const VTYPES: [&str; 14] = [
     "u8", "u16", "u32", "u64", "u128", "usize", "i8", "i16", "i32", "i64", "i128", "isize", "empty", "w3",
 ];
-pub const PROFILES: [&str; 11] =
-    ["std", "lm", "values", "utf8", "serial", "invalid", "nfb", "perm", "mixed", "vacant", "exh"];
+pub const PROFILES: [&str; 12] =
+    ["std", "lm", "values", "utf8", "serial", "invalid", "nfb", "perm", "mixed", "vacant", "exh", "big"];
 const NFBS: [u32; 6] = [1, 2, 3, 4, 16, 64];
 
 type Sym = u32;
@@ -655,6 +655,54 @@ fn p_vacant(r: &mut Rng, n: usize) -> Vec<Case> {
     vec![mk(Spec { id: format!("k{}", n), variant: 'B', kind, nfb, entry: 'P', vt: "u32" }, false, &set, None, &hs)]
 }
 
+/// Large automata: more than 2^16 elements (indices that do not fit 16 bits, hundreds of blocks,
+/// many evictions from the builder's ring of free blocks). Random patterns of length 4-9 sharing
+/// random prefixes; haystacks glue patterns, prefixes and noise.
+fn p_big(r: &mut Rng, n: usize) -> Vec<Case> {
+    let variant = if n % 3 == 2 { 'C' } else { 'B' };
+    let kind = r.below(3) as u8;
+    let utf8 = variant == 'C';
+    let alpha: Vec<Sym> = if utf8 {
+        let mut a: Vec<Sym> = (0..200).map(|_| 0x61 + r.below(0x3000) as Sym).collect();
+        a.extend((0..40).map(|_| 0x1_0000 + r.below(0x2_0000) as Sym));
+        a.retain(|c| char::from_u32(*c).is_some());
+        a
+    } else {
+        (0..256).map(|c| c as Sym).collect()
+    };
+    let npat = r.range(13500, 17000);
+    let mut set: Vec<Word> = Vec::with_capacity(npat);
+    for i in 0..npat {
+        let len = r.range(4, 9);
+        let mut w: Word = if i > 0 && r.pct(35) {
+            let q = &set[r.below(i)];
+            q[..r.range(1, q.len())].to_vec()
+        } else {
+            vec![]
+        };
+        while w.len() < len {
+            w.push(alpha[r.below(alpha.len())]);
+        }
+        set.push(w);
+    }
+    let set = dedup(set);
+    let mut hs: Vec<Word> = vec![];
+    for _ in 0..6 {
+        let mut h: Word = vec![];
+        for _ in 0..r.range(3, 12) {
+            let q = &set[r.below(set.len())];
+            match r.below(4) {
+                0 => h.extend_from_slice(&q[..r.range(1, q.len())]),
+                1 => h.push(alpha[r.below(alpha.len())]),
+                _ => h.extend_from_slice(q),
+            }
+        }
+        hs.push(h);
+    }
+    let nfb = pick_nfb(r);
+    vec![mk(Spec { id: format!("G{}", n), variant, kind, nfb, entry: 'P', vt: "u32" }, utf8, &set, None, &hs)]
+}
+
 /// Exhaustive small scope: item `n` enumerates (variant, kind, ordered list of 1-3 distinct
 /// patterns of length 1-3 over a two-symbol alphabet); every case gets ALL haystacks of length
 /// <= 6 over that alphabet. 2 * 3 * 2380 = 14280 items in total (`EXH_ITEMS`). Validation of the
@@ -725,6 +773,7 @@ pub fn item(profile: &str, r: &mut Rng, n: usize) -> Vec<Case> {
         "perm" => p_perm(r, n),
         "vacant" => p_vacant(r, n),
         "exh" => p_exh(n),
+        "big" => p_big(r, n),
         _ => {
             let x = r.below(100);
             let sub = match x {
